@@ -17,8 +17,8 @@ def doctets(b): return tlv(4, b)
 def dbits(b, unused=0): return tlv(3, bytes([unused]) + b)
 def dnull(): return b'\x05\x00'
 def oid_content(arcs):
-    out = bytes([arcs[0] * 40 + arcs[1]])
-    for x in arcs[2:]:
+    out = b""
+    for x in [arcs[0] * 40 + arcs[1]] + list(arcs[2:]):       # X.690 8.19.4: the first two arcs share one subidentifier
         s = [x & 0x7f]; x >>= 7
         while x: s.append(0x80 | (x & 0x7f)); x >>= 7
         out += bytes(reversed(s))
